@@ -15,11 +15,39 @@ func (fx *fnExec) invokeHooks(m *types.Func, recv Val, args []Val, st *State, po
 		return
 	}
 	sig, _ := m.Type().(*types.Signature)
+	for i, a := range fx.c.Asserts {
+		if a.Callee != m.Name() {
+			continue
+		}
+		if !fx.invokeClauseApplies(a.Cond, nil, m, recv, args, st) {
+			continue
+		}
+		k := fmt.Sprintf("assert:%d:%s", i, a.Callee)
+		fx.callCount[k]++
+		noteAssertFired(fx.c, i)
+		if a.Nth != 0 && a.Nth != fx.callCount[k] {
+			continue
+		}
+		env := fx.specEnv(st, fx.entry, nil)
+		env.vars["$recv"] = recv
+		for j := range args {
+			env.vars[fmt.Sprintf("$%d", j)] = args[j]
+			if sig != nil && j < sig.Params().Len() && sig.Params().At(j).Name() != "" {
+				env.vars["$"+sig.Params().At(j).Name()] = args[j]
+			}
+		}
+		t := env.evalBool(a.Cond)
+		fx.oblige(fmt.Sprintf("assertcall.%s.%d#%d", a.Callee, i+1, fx.callCount[k]), "assertcall", st, t, pos, a.Cond.Src)
+	}
 	// ghost counters updated at the call of an interface method
-	for _, g := range fx.c.Ghost {
+	for gi, g := range fx.c.Ghost {
 		if g.Callee != m.Name() {
 			continue
 		}
+		if !fx.invokeClauseApplies(g.Delta, g.When, m, recv, args, st) {
+			continue // written with the parameter names of a concrete implementation: not for this site
+		}
+		noteGhostFired(fx.c, gi)
 		if g.After {
 			fail("%s: `ghost ... after call %s`: %s is an interface method call that is not devirtualised here; use `at call`", fx.fn, g.Callee, g.Callee)
 		}
@@ -42,27 +70,6 @@ func (fx *fnExec) invokeHooks(m *types.Func, recv Val, args []Val, st *State, po
 		}
 		st.Ghost[g.Name] = BVAdd(cur, dt)
 	}
-	for i, a := range fx.c.Asserts {
-		if a.Callee != m.Name() {
-			continue
-		}
-		k := fmt.Sprintf("assert:%d:%s", i, a.Callee)
-		fx.callCount[k]++
-		noteAssertFired(fx.c, i)
-		if a.Nth != 0 && a.Nth != fx.callCount[k] {
-			continue
-		}
-		env := fx.specEnv(st, fx.entry, nil)
-		env.vars["$recv"] = recv
-		for j := range args {
-			env.vars[fmt.Sprintf("$%d", j)] = args[j]
-			if sig != nil && j < sig.Params().Len() && sig.Params().At(j).Name() != "" {
-				env.vars["$"+sig.Params().At(j).Name()] = args[j]
-			}
-		}
-		t := env.evalBool(a.Cond)
-		fx.oblige(fmt.Sprintf("assertcall.%s.%d#%d", a.Callee, i+1, fx.callCount[k]), "assertcall", st, t, pos, a.Cond.Src)
-	}
 }
 
 // assertFired records which `assert at call` clauses of a contract matched at least one call: a
@@ -83,4 +90,55 @@ func checkAssertsFired(c *Contract) {
 			fail("assert at call %s (%s): no call of %s was met while executing the unit: the assertion would be vacuous", a.Callee, a.Cond.Line, a.Callee)
 		}
 	}
+}
+
+// ghostFired: like assertFired, for `ghost ... at|after call` clauses.
+var ghostFired = map[*Contract]map[int]bool{}
+
+func noteGhostFired(c *Contract, i int) {
+	if ghostFired[c] == nil {
+		ghostFired[c] = map[int]bool{}
+	}
+	ghostFired[c][i] = true
+}
+
+func checkGhostsFired(c *Contract) {
+	for i, g := range c.Ghost {
+		if !ghostFired[c][i] {
+			fail("ghost %s ... call %s: no call of %s was met while executing the unit: the counter would stay 0 (clauses over it would be vacuous or wrong)", g.Name, g.Callee, g.Callee)
+		}
+	}
+}
+
+// invokeClauseApplies: a call-site clause can be evaluated at an interface method call only if every
+// $name it mentions is bound there ($0.., $recv, the interface method's parameter names). Clauses
+// written with the parameter names of a concrete implementation apply to the devirtualised or
+// dispatched calls of that implementation, not to the abstract interface call.
+func (fx *fnExec) invokeClauseApplies(c Clause, when *Clause, m *types.Func, recv Val, args []Val, st *State) (ok bool) {
+	sig, _ := m.Type().(*types.Signature)
+	bound := map[string]bool{"$recv": true}
+	for j := range args {
+		bound[fmt.Sprintf("$%d", j)] = true
+		if sig != nil && j < sig.Params().Len() && sig.Params().At(j).Name() != "" {
+			bound["$"+sig.Params().At(j).Name()] = true
+		}
+	}
+	ok = true
+	var walk func(x *SExpr)
+	walk = func(x *SExpr) {
+		if x == nil {
+			return
+		}
+		if x.Kind == "ident" && len(x.Name) > 0 && x.Name[0] == '$' && !bound[x.Name] {
+			ok = false
+		}
+		for _, a := range x.Args {
+			walk(a)
+		}
+	}
+	walk(c.Expr)
+	if when != nil {
+		walk(when.Expr)
+	}
+	return ok
 }
